@@ -186,7 +186,7 @@ func drawPlan(t *rapid.T, mode string) *plan {
 	napp := rapid.IntRange(0, 8).Draw(t, "napp")
 	for i := 0; i < napp; i++ {
 		p.App = append(p.App, appStep{
-			Kind: rapid.SampledFrom([]string{"draw", "show", "sync", "post", "pending", "size", "mouse", "paste"}).Draw(t, "appkind"),
+			Kind: rapid.SampledFrom(appKinds).Draw(t, "appkind"),
 			X:    rapid.IntRange(0, 39).Draw(t, "ax"), Y: rapid.IntRange(0, 14).Draw(t, "ay"),
 		})
 	}
@@ -214,6 +214,12 @@ func drawPlan(t *rapid.T, mode string) *plan {
 	} else {
 		p.Shutdown.Kind = "fini"
 		p.FiniHow = rapid.SampledFrom([]int{0, 0, 0, 1, 1, 2}).Draw(t, "finihow")
+		if rapid.IntRange(0, 2).Draw(t, "midsuspend") == 0 {
+			// one Suspend/Resume somewhere in the application's script
+			at := rapid.IntRange(0, len(p.App)).Draw(t, "suspendat")
+			st := appStep{Kind: "suspend-resume"}
+			p.App = append(p.App[:at], append([]appStep{st}, p.App[at:]...)...)
+		}
 	}
 	return p
 }
@@ -229,7 +235,12 @@ type delivery struct {
 	Who  string
 }
 
+// appKinds are the application's step kinds; C05 runs add one Suspend/Resume
+// at most (see drawPlan).
+var appKinds = []string{"draw", "show", "sync", "post", "pending", "size", "mouse", "paste"}
+
 type ew struct {
+	holdFeed bool
 	*hx.World
 	p       *plan
 	mode    string
@@ -464,6 +475,9 @@ func (w *ew) posterActor(idx int) {
 }
 
 func (w *ew) feed(toks []tok) {
+	// (no input arrives while the application suspends the screen: see the
+	// "suspend-resume" step)
+	simrt.Wait("feed-allowed", func() bool { return !w.holdFeed })
 	var b []byte
 	for _, tk := range toks {
 		b = append(b, tk.B...)
@@ -537,6 +551,30 @@ func (w *ew) appActor() {
 			w.postAt[id] = w.S.Now()
 			err := w.Scr.PostEvent(tcell.NewEventInterrupt(id))
 			w.postRes[99] = append(w.postRes[99], err == nil)
+		case "suspend-resume":
+			// The terminal is lent to another program for a moment.  Input
+			// that has not been decoded and queued by then is lost with the
+			// suspension (and the harness flushes what is still upstream, so
+			// that no sequence is cut in half); events already queued - and
+			// every PostEvent that was accepted - must still be delivered.
+			w.holdFeed = true
+			for i := len(w.gotIn); i < len(w.wantIn); i++ {
+				if !strings.HasPrefix(w.wantIn[i], "?") {
+					w.wantIn[i] = "?" + w.wantIn[i]
+				}
+			}
+			_ = w.Scr.Suspend()
+			w.Tty.Discard()
+			if kc := tcell.VerifKeychan(w.Scr); kc != nil {
+				for len(kc) > 0 {
+					<-kc
+				}
+			}
+			w.Tty.Faults.Inc("suspend_resume")
+			if err := w.Scr.Resume(); err != nil {
+				w.Failf("C05/lost", "Resume failed: %v", err)
+			}
+			w.holdFeed = false
 		}
 	}
 }
@@ -576,6 +614,72 @@ func (w *ew) inputMatches(want, got string) bool {
 func (w *ew) checkLedger(complete bool) {
 	// expected entries starting with '?' are optional (may be absent, but
 	// if present they must be in this position)
+	// With optional entries a greedy walk can pair a delivered event with an
+	// optional expectation that merely looks the same as a later mandatory
+	// one: decide by dynamic programming whether SOME order-preserving
+	// pairing covers every delivered event and every mandatory expectation
+	// (up to the last delivered event, or to the end when complete).
+	hasOpt := false
+	for _, x := range w.wantIn {
+		if strings.HasPrefix(x, "?") {
+			hasOpt = true
+		}
+	}
+	if hasOpt {
+		nw, ng := len(w.wantIn), len(w.gotIn)
+		reach := make([][]int8, nw+1) // 0 no, 1 via skip, 2 via match
+		for i := range reach {
+			reach[i] = make([]int8, ng+1)
+		}
+		reach[0][0] = 1
+		for wi := 0; wi < nw; wi++ {
+			opt := strings.HasPrefix(w.wantIn[wi], "?")
+			want := strings.TrimPrefix(w.wantIn[wi], "?")
+			for gi := 0; gi <= ng; gi++ {
+				if reach[wi][gi] == 0 {
+					continue
+				}
+				if gi < ng && w.inputMatches(want, w.gotIn[gi].Desc) && reach[wi+1][gi+1] == 0 {
+					reach[wi+1][gi+1] = 2
+				}
+				if opt && reach[wi+1][gi] == 0 {
+					reach[wi+1][gi] = 1
+				}
+			}
+		}
+		end := -1
+		for wi := nw; wi >= 0; wi-- {
+			if reach[wi][ng] == 0 {
+				continue
+			}
+			ok := true
+			if complete {
+				for k := wi; k < nw; k++ {
+					if !strings.HasPrefix(w.wantIn[k], "?") {
+						ok = false
+					}
+				}
+			}
+			if ok {
+				end = wi
+				break
+			}
+		}
+		if end >= 0 {
+			// walk one pairing back for the When() bounds
+			wi, gi := end, ng
+			for wi > 0 {
+				if reach[wi][gi] == 2 {
+					w.checkWhen(w.gotIn[gi-1], w.fedAt[wi-1], "input event "+w.gotIn[gi-1].Desc)
+					gi--
+				}
+				wi--
+			}
+			w.checkPosts(complete)
+			return
+		}
+		// no pairing exists: fall through to the greedy walk for the diagnosis
+	}
 	gi := 0
 	missing := ""
 	for wi := 0; wi < len(w.wantIn); wi++ {
@@ -611,8 +715,18 @@ func (w *ew) checkLedger(complete bool) {
 		w.Failf("C05/dup", "delivered %d input events, more than were sent; extra: %v", len(w.gotIn), w.gotIn[gi].Desc)
 	}
 	if complete && missing != "" {
-		w.Failf("C05/lost", "only %d input events were delivered after the queue was drained; first missing %s", len(w.gotIn), missing)
+		var gd []string
+		for _, g := range w.gotIn {
+			gd = append(gd, g.Desc)
+		}
+		w.Failf("C05/lost", "only %d input events were delivered after the queue was drained; first missing %s (expected %v, delivered %v)", len(w.gotIn), missing, w.wantIn, gd)
 	}
+	w.checkPosts(complete)
+}
+
+// checkPosts: every accepted PostEvent is delivered exactly once, in
+// per-goroutine order.
+func (w *ew) checkPosts(complete bool) {
 	for poster, res := range w.postRes {
 		var want []int
 		base := 0
